@@ -138,7 +138,40 @@ impl Observer for Obs {
             return Ok(());
         }
         let m = members[pick(op[1], members.len())];
-        match pick(op[2], 8) {
+        match pick(op[2], 10) {
+            8 | 9 => {
+                // messages overtake each other: the receiver consumes the last of a burst, is written and reloaded with the
+                // skipped message keys in its ratchet, then gets the earlier ones
+                let others: Vec<usize> = members.iter().copied().filter(|x| *x != m).collect();
+                if others.is_empty() {
+                    return Ok(());
+                }
+                let s = others[pick(op[3], others.len())];
+                w.flush(op[4])?;
+                if w.parties[s].g().commit_required() || w.parties[m].g().current_epoch() != w.parties[s].g().current_epoch() {
+                    return Ok(());
+                }
+                let n = 2 + (op[3] % 3) as usize;
+                let mut fl = vec![];
+                for i in 0..n {
+                    w.send_app(s, vec![i as u8; 4 + i], vec![]).map_err(|e| op_failure(P, "encrypt_application_message", &e))?;
+                    fl.push(w.inflight.pop().expect("flight"));
+                }
+                let last = fl.len() - 1;
+                let r = w.process(m, &fl[last].bytes);
+                w.check_genuine(m, &fl[last], r)?;
+                self.save_reload(w, m, "_with_skipped_message_keys")?;
+                for f in &fl[..last] {
+                    let r = w.process(m, &f.bytes);
+                    w.check_genuine(m, f, r)?;
+                }
+                for o in members.iter().copied().filter(|x| *x != m && *x != s) {
+                    for f in &fl {
+                        let r = w.process(o, &f.bytes);
+                        w.check_genuine(o, f, r)?;
+                    }
+                }
+            }
             0..=2 => self.save_reload(w, m, "")?,
             3 | 4 => {
                 match w.spawn_twin(m) {
